@@ -26,6 +26,10 @@ enum SK {
     Sbom,
     Uri,
     Os,
+    /// a directory string other than "" and "." (both may legitimately be read as "the app directory")
+    WorkDir,
+    /// free text that is not empty (ids and names of stacks, targets and distributions)
+    NonEmpty,
 }
 
 #[derive(Clone, Debug)]
@@ -69,14 +73,14 @@ fn component_fields() -> Vec<Field> {
     vec![
         f("api", Sch::Str(SK::Api), true, None),
         f("buildpack", buildpack_table(), true, None),
-        f("stacks", Sch::TableArray(vec![f("id", Sch::Str(SK::Any), true, None), f("mixins", Sch::StrArray(SK::Any), false, Some(TV::Array(vec![])))]), false, Some(TV::Array(vec![]))),
+        f("stacks", Sch::TableArray(vec![f("id", Sch::Str(SK::NonEmpty), true, None), f("mixins", Sch::StrArray(SK::Any), false, Some(TV::Array(vec![])))]), false, Some(TV::Array(vec![]))),
         f(
             "targets",
             Sch::TableArray(vec![
-                f("os", Sch::Str(SK::Any), false, None),
-                f("arch", Sch::Str(SK::Any), false, None),
-                f("variant", Sch::Str(SK::Any), false, None),
-                f("distros", Sch::TableArray(vec![f("name", Sch::Str(SK::Any), true, None), f("version", Sch::Str(SK::Any), true, None)]), false, Some(TV::Array(vec![]))),
+                f("os", Sch::Str(SK::NonEmpty), false, None),
+                f("arch", Sch::Str(SK::NonEmpty), false, None),
+                f("variant", Sch::Str(SK::NonEmpty), false, None),
+                f("distros", Sch::TableArray(vec![f("name", Sch::Str(SK::NonEmpty), true, None), f("version", Sch::Str(SK::NonEmpty), true, None)]), false, Some(TV::Array(vec![]))),
             ]),
             false,
             Some(TV::Array(vec![])),
@@ -137,7 +141,7 @@ fn schema(ty: Ty) -> Vec<Field> {
                     f("command", Sch::StrArray(SK::Any), true, None),
                     f("args", Sch::StrArray(SK::Any), false, Some(TV::Array(vec![]))),
                     f("default", Sch::Bool, false, Some(TV::Bool(false))),
-                    f("working-dir", Sch::Str(SK::Any), false, None),
+                    f("working-dir", Sch::Str(SK::WorkDir), false, None),
                 ]),
                 false,
                 Some(TV::Array(vec![])),
@@ -168,6 +172,8 @@ fn str_strategy(k: SK) -> BoxedStrategy<String> {
         SK::Sbom => prop_oneof![Just("application/vnd.cyclonedx+json".to_string()), Just("application/spdx+json".to_string()), Just("application/vnd.syft+json".to_string())].boxed(),
         SK::Uri => prop_oneof![Just(".".to_string()), Just("libcnb:acme/one".to_string()), Just("../rel".to_string()), Just("/abs/path".to_string()), Just("docker://docker.io/a/b:1".to_string()), Just("https://e.com/x.cnb".to_string())].boxed(),
         SK::Os => prop_oneof![Just("linux".to_string()), Just("windows".to_string())].boxed(),
+        SK::WorkDir => nasty_string(8).prop_map(|s| if s.is_empty() || s == "." { "/srv/app dir".to_string() } else { s }).boxed(),
+        SK::NonEmpty => nasty_string(8).prop_map(|s| if s.is_empty() { "x".to_string() } else { s }).boxed(),
     }
 }
 
@@ -186,7 +192,11 @@ fn table_strategy(fields: Vec<Field>) -> BoxedStrategy<TV> {
     // every optional-key subset: each optional key present with probability 1/2
     let mut strat: BoxedStrategy<Vec<(String, TV)>> = Just(vec![]).boxed();
     for fld in fields {
-        let vs = value_strategy(&fld.sch);
+        let vs = match (&fld.sch, fld.req) {
+            // a REQUIRED array of tables (order, group) has at least one element: whether an empty one conforms is not decided
+            (Sch::TableArray(inner), true) => proptest::collection::vec(table_strategy(inner.clone()), 1..4).prop_map(TV::Array).boxed(),
+            _ => value_strategy(&fld.sch),
+        };
         let req = fld.req;
         let key = fld.key.to_string();
         strat = (strat, vs, any::<bool>())
